@@ -398,7 +398,7 @@ func runC01(c *ctx) {
 		c01case(c, strings.Fields(h))
 	}
 	r := gen.New(c.seed)
-	n := 140
+	n := 320
 	if c.thorough() {
 		n = 4000
 	}
